@@ -20,6 +20,7 @@ forced: tuple of class names whose instances get unconditional parentheses
 from __future__ import annotations
 
 import ast
+import itertools
 from dataclasses import dataclass, field
 
 from . import AnalysisError, ModelViolation
@@ -174,9 +175,25 @@ class _Conv:
             if name == "self.join":
                 sep = args[0][1]
                 seq = args[1]
+                if seq[0] == "seq" and seq[2][0] == "ifexp" and \
+                        len(seq[2]) == 4:
+                    # "" if el is None else rec(el): what the statement form
+                    # (append "" / append rec(el)) is summarised to
+                    arms = [a for a in seq[2][2:] if a != ("const", "")]
+                    tv = getattr(seq[2][1], "val", None)
+                    if len(arms) == 1 and tv is not None and \
+                            tv[0] == "compare" and tv[1] in (("Is",), ("IsNot",)) \
+                            and tv[3][0] == ("const", None) and tv[2][0] == "elem":
+                        seq = seq[:2] + (arms[0],) + seq[3:]
                 if seq[0] == "seq" and seq[2][0] == "rec":
                     prec = _prec_value(seq[2][3][0], self.precs)
                     return ("join", sep, self.field_of(seq[3]), prec, ())
+                if seq[0] == "seq" and seq[2][0] == "call" and seq[2][1] == \
+                        "self.rec_with_force_parens_around" and \
+                        seq[2][2][0][0] == "elem":
+                    return ("join", sep, self.field_of(seq[3]),
+                            _prec_value(seq[2][2][1], self.precs),
+                            self.forced_kw(seq[2]))
                 raise Unsupported(f"self.join over {seq}")
             if name == "str" and args == (NODE,):
                 return ("data", "@str")
@@ -211,6 +228,15 @@ class _Conv:
                 fld = self.field_of(src)
                 kind = "elems"
             return [("each", fld, kind, self.elem_template(el))]
+        if s[0] == "extend" and len(s) == 4:
+            # a sequence appended to, once or in a loop over a field
+            el, src = s[2], s[3]
+            if src is None:
+                return self.seqparts(s[1]) + [("one", self.conv(el))]
+            kind = "items" if src[0] == "items" else "elems"
+            fld = self.field_of(src[1] if src[0] == "items" else src)
+            return self.seqparts(s[1]) + [
+                ("each", fld, kind, self.elem_template(el))]
         if s[0] == "lit" and s[1] in ("tuple", "list"):
             # a literal sequence of strings, possibly with starred sequences
             out = []
@@ -238,6 +264,12 @@ class _Conv:
             return ("cat", tuple(parts))
         if el[0] == "key":
             return ("key",)
+        if el[0] == "fstring":
+            return ("cat", tuple(self.elem_template(x) for x in el[1]))
+        if el[0] == "const" and isinstance(el[1], str):
+            return ("lit", el[1])
+        if el[0] == "binop" and el[1] == "Add":
+            return ("cat", (self.elem_template(el[2]), self.elem_template(el[3])))
         raise Unsupported(f"element template {el}")
 
 
@@ -525,12 +557,27 @@ def _forced_of(model, mapper, ps):
 
 def _extract_handler(model, mapper, n: NodeClass, mem, precs, _depth=0):
     variants = []
-    for ps in handler_summaries(model, n, mem.node):
+    all_ps = list(handler_summaries(model, n, mem.node))
+    # polarities each test takes on the returning paths: a test that every
+    # returning path passes the same way only guards a refusal (raise) -- it
+    # narrows what is printed at all, not how
+    pols = {}
+    for ps in all_ps:
+        if ps.term == "return":
+            for _, pol, v in ps.conds:
+                pols.setdefault(str(v), set()).add(pol)
+    for ps in all_ps:
         if ps.term != "return":
             continue
         conds = []
         for _, pol, v in ps.conds:
-            c = _cond(v, pol)
+            try:
+                c = _cond(v, pol)
+            except Unsupported:
+                if len(pols.get(str(v), ())) == 1 and any(
+                        q.term == "raise" for q in all_ps):
+                    continue
+                raise
             if c is not None:
                 conds.append(c)
         forced = _forced_of(model, mapper, ps)
@@ -581,10 +628,50 @@ def _extract_handler(model, mapper, n: NodeClass, mem, precs, _depth=0):
                     rv, sc, ("subtemplate", ("with_prec", sub.template, p2))))
                 variants.append(Variant(tuple(conds) + tuple(sub.conds), tmpl))
             continue
-        variants.append(Variant(tuple(conds), conv.conv(rv)))
+        for extra, val in _split_conditionals(rv):
+            variants.append(Variant(tuple(conds) + extra, conv.conv(val)))
     if not variants:
         raise Unsupported("no returning path")
     return variants
+
+
+def _split_conditionals(v, limit=8):
+    """a returned value with conditional expressions in it (outside element
+    templates of sequences) is what an if/else statement around the return
+    would have made: -> [(conditions, value)]"""
+    from .summary import CondText
+    tests = []
+
+    def mentions_elem(x):
+        return any(y[0] in ("elem", "key", "val") for y in _walk_vals(x))
+
+    def collect(x):
+        if isinstance(x, tuple) and not isinstance(x, CondText):
+            if len(x) == 4 and x[0] == "ifexp" and isinstance(x[1], CondText) \
+                    and x[1].val is not None and not mentions_elem(x[1].val):
+                if str(x[1]) not in [str(t) for t in tests]:
+                    tests.append(x[1])
+            for y in x:
+                collect(y)
+    collect(v)
+    if not tests:
+        return [((), v)]
+    if 2 ** len(tests) > limit:
+        raise Unsupported("too many conditional expressions in one value")
+    out = []
+    for bits in itertools.product((True, False), repeat=len(tests)):
+        choice = {str(t): b for t, b in zip(tests, bits)}
+
+        def subst(x):
+            if isinstance(x, tuple) and not isinstance(x, CondText):
+                if len(x) == 4 and x[0] == "ifexp" and str(x[1]) in choice:
+                    return subst(x[2] if choice[str(x[1])] else x[3])
+                return tuple(subst(y) for y in x)
+            return x
+        extra = tuple(c for c in (_cond(t.val, b) for t, b in zip(tests, bits))
+                      if c is not None)
+        out.append((extra, subst(v)))
+    return out
 
 
 def _walk_vals(v, depth=0):
